@@ -58,6 +58,30 @@ Proof.
   rewrite (proj1 (veq_code x y Sx)), (proj1 (veq_code x z Sx)), H. reflexivity.
 Qed.
 
+Lemma veq_trans_scalar x y z : scalar x = true -> scalar y = true ->
+  veq x y = true -> veq y z = true -> veq x z = true.
+Proof. intros Sx Sy H1 H2. rewrite <- (veq_cong_r x y z Sx Sy H2). exact H1. Qed.
+
+(* == on scalars is an equivalence; it identifies 1, True and 1.0, and 0, False and 0.0, keeps 0.5 apart from
+   every int, and no number is == None, '' or b'' *)
+Lemma scalar_eq_facts :
+  (forall x, scalar x = true -> veq x x = true)
+  /\ (forall x y, scalar x = true -> veq x y = veq y x)
+  /\ (forall x y z, scalar x = true -> scalar y = true -> veq x y = true -> veq y z = true -> veq x z = true)
+  /\ (forall z b h, veq (VInt z) (VBool b) = Z.eqb z (if b then 1 else 0)
+                    /\ veq (VInt z) (VFloat h) = Z.eqb (2 * z) h
+                    /\ veq (VBool b) (VFloat h) = Z.eqb (if b then 2 else 0) h)
+  /\ (forall x, num2 x <> None -> veq x VNone = false /\ veq x (VStr []) = false /\ veq x (VBytes []) = false
+                                   /\ veq x (VList []) = false /\ veq x (VDict []) = false).
+Proof.
+  split; [exact veq_refl_scalar|]. split; [exact veq_sym_scalar|]. split; [exact veq_trans_scalar|]. split.
+  - intros z b h. repeat split.
+    + cbn [veq num2]. destruct b; destruct z as [|p|p]; try destruct p; reflexivity.
+    + reflexivity.
+    + reflexivity.
+  - intros x H. destruct x; try (exfalso; apply H; reflexivity); repeat split.
+Qed.
+
 (* ---------- SameMembers ---------- *)
 Definition Sc (l : list val) : Prop := Forall (fun v => scalar v = true) l.
 
